@@ -111,7 +111,9 @@ func verifDumpPI(pi *PatternIndex) interface{} {
 
 // VerifDump renders the private state of a State implementation as a
 // JSON-able value with deterministic content.
-func VerifDump(s State) map[string]interface{} {
+func VerifDump(s State) map[string]interface{} { return verifDump(s, false) }
+
+func verifDump(s State, extras bool) map[string]interface{} {
 	out := map[string]interface{}{}
 	switch st := s.(type) {
 	case *IndexedState:
@@ -136,7 +138,7 @@ func VerifDump(s State) map[string]interface{} {
 		sort.Strings(cr)
 		out["cached"] = cr
 		out["loaded"] = st.Loaded
-		if x := verifExtras(st, map[string]bool{"Name": true, "IdToFact": true, "FactIndex": true, "RuleIndex": true, "Loaded": true, "cachedRules": true}); len(x) > 0 {
+		if x := verifExtras(st, map[string]bool{"Name": true, "IdToFact": true, "FactIndex": true, "RuleIndex": true, "Loaded": true, "cachedRules": true}); extras && len(x) > 0 {
 			out["extra"] = x
 		}
 	case *LinearState:
@@ -152,13 +154,26 @@ func VerifDump(s State) map[string]interface{} {
 		}
 		sort.Strings(cr)
 		out["cached"] = cr
-		if x := verifExtras(st, map[string]bool{"Name": true, "Facts": true, "cachedRules": true}); len(x) > 0 {
+		if x := verifExtras(st, map[string]bool{"Name": true, "Facts": true, "cachedRules": true}); extras && len(x) > 0 {
 			out["extra"] = x
 		}
 	default:
 		out["kind"] = "unknown"
 	}
 	return out
+}
+
+// VerifKeyJSON is the canonical state KEY of explicit-state search: the dump
+// plus every plain-valued field of the state struct the dump does not know
+// (verifExtras).  Oracles ("this operation must not change the state") keep
+// using VerifDumpJSON, so a benign cache or counter field added by a change
+// cannot raise an alarm; it can only make the search distinguish more states.
+func VerifKeyJSON(s State) string {
+	bs, err := json.Marshal(verifDump(s, true))
+	if err != nil {
+		return "dump-error:" + err.Error()
+	}
+	return string(bs)
 }
 
 // VerifDumpJSON is VerifDump rendered (map keys sorted by encoding/json).
